@@ -178,18 +178,42 @@ def model_from_tissue(t, nint, seed, coord_scale=1.0, gaps=True, styles=("densit
     vmax = max(m.vertices) if m.vertices else 0
     emax = max(m.edges) if m.edges else 0
     m.orphan_vertices, m.orphan_edges = [], []
-    for o in range(orphans):
-        a, b = vmax + 2 + 3 * o, vmax + 3 + 3 * o
-        m.vertices[a] = (float(rng.uniform(-5, 5)), float(rng.uniform(-5, 5)))
-        m.vertices[b] = (float(rng.uniform(-5, 5)), float(rng.uniform(-5, 5)))
-        m.orphan_vertices += [a, b]
-        eid = emax + 2 + 2 * o
-        if o % 2 == 0:
-            m.edges[eid] = (a, b, 1.5, "density")          # orphan-orphan
-        else:
-            anyv = next(iter(vid_of.values()))
-            m.edges[eid] = (a, anyv, 0.5, "density")       # orphan-tissue
+    tissue_vids = sorted(vid_of.values())
+    nid = [vmax + 2, emax + 2]
+
+    def new_vertex():
+        vid = nid[0]
+        nid[0] += int(rng.integers(1, 3))
+        m.vertices[vid] = (float(rng.uniform(-5, 5)), float(rng.uniform(-5, 5)))
+        m.orphan_vertices.append(vid)
+        return vid
+
+    def new_edge(a, b):
+        eid = nid[1]
+        nid[1] += int(rng.integers(1, 3))
+        m.edges[eid] = (a, b, round(float(rng.uniform(0.2, 2.0)), 3), "density") if rng.uniform() < 0.5 else (b, a, None, "bare")
         m.orphan_edges.append(eid)
+
+    def tv():
+        return tissue_vids[int(rng.integers(0, len(tissue_vids)))]
+
+    for o in range(orphans):
+        kind = int(rng.integers(0, 5))
+        a = new_vertex()
+        if kind == 0:          # free edge between two unattached vertices
+            new_edge(a, new_vertex())
+        elif kind == 1:        # spur: unattached vertex joined to the tissue
+            new_edge(a, tv())
+        elif kind == 2:        # 'V': unattached vertex joined to two tissue vertices
+            new_edge(tv(), a)
+            new_edge(a, tv())
+        elif kind == 3:        # chain tissue - a - b, plus a star of three edges at a
+            b2 = new_vertex()
+            new_edge(tv(), a)
+            new_edge(a, b2)
+            new_edge(a, tv())
+        else:                  # isolated vertex
+            pass
     m.vid_of = vid_of
     m.e_of = e_of
     m.chains = chains
